@@ -37,7 +37,7 @@ from rv.sim import Bench
 from rv.ref import c35_usb3link as L
 
 PROPERTY = "C36"
-CASES = {"quick": 32, "thorough": 480}
+CASES = {"quick": 32, "thorough": 320}
 # elaboration of the CRC-32 users dominates the cost; generous watchdog for a loaded machine
 TIMEOUT = {"quick": 3600, "thorough": 8 * 3600}
 RULE = ("case = session of 100 packets (60% data headers with payload 0..300 bytes, every length mod 4; delayed data headers; "
